@@ -199,3 +199,16 @@ def results_from_impl(r):
     if "panic" in r:
         return ("panic",)
     return ("crash", r)
+
+
+import re as _re
+_BRDA = _re.compile(rb"BRDA:(\d+),(\d+),(\d+)")
+
+
+def huge_branch_number(data, limit=1 << 20):
+    """known-finding class C14/lcov-branch-number-alloc: a BRDA record whose branch number (as the parser
+    reads it: decimal, wrapped to u32) is so large that add_branch allocates a vector of that many slots"""
+    for m in _BRDA.finditer(data):
+        if int(m.group(3)) % (1 << 32) >= limit:
+            return True
+    return False
